@@ -170,6 +170,8 @@ class Pull(Op):
             self.dest = FailingSink(self.kw.get('fail_at', 1))
         else:
             self.dest = '/cwd/pulled%d.bin' % k
+            if self.kw.get('preexisting'):
+                w.vfs.add_file(self.dest, b'OLD CONTENT THAT MUST BE REPLACED')
         return recs
 
     def _cb(self):
@@ -191,6 +193,8 @@ class Pull(Op):
         return norm(w.vfs.files.get(self.dest, SymBytes()))
 
     def check(self, ctx, w, st, o, expected, tag):
+        if self.dest_kind == 'path':
+            ctx.check(self.dest in w.vfs.files, tag + 'pull creates the destination file (also for an empty device file)')
         ctx.check(_eqb(self.result(w), bjoin(expected)), tag + "pull wrote exactly the device file's bytes, in order")
         if self.cb_kind:
             total = sum(len(r) for r in expected)
